@@ -95,6 +95,7 @@ func decOnRef(c *fw.Ctx, k kind, tag int, v wval, ref []byte, fast bool) {
 	c.Journal("C02 dec " + desc)
 	in := append(append([]byte{}, ref...), c.Rng.Bytes(c.Rng.Intn(3))...)
 	rq, rp, results, offsets := runDecProgram(fast, in, []decOp{{name: "tag"}, {name: k.decOp}})
+	reportHeld(c, "dec-on-ref")
 	c.ModelCmp("dec-on-ref", rq, rp, stripAlloc)
 	outcome := "ok"
 	wantTag := fmt.Sprintf("t%d/%d", tag, k.wt)
@@ -180,6 +181,7 @@ func skipWalk(c *fw.Ctx, ks []kind, nFields int, fast bool) {
 		c.Violate(fw.Violation{Stream: "skip-walk", Signature: "skip/concat", What: "concatenating skipped fields does not reproduce the input", Input: hexs(msg)})
 	}
 	rq, rp, _, _ := runDecProgram(fast, msg, ops)
+	reportHeld(c, "skip-walk")
 	c.ModelCmp("skip-walk", rq, rp, stripAlloc)
 	c.Count("skip-walk", hexs(msg), outcome, len(msg), len(refBounds) >= 2)
 	if c.Rng.Intn(300) == 0 {
